@@ -124,7 +124,14 @@ def prop_b(case):
         bmax = max(b)
         for k in range(2, 4):
             prev = max(b[:k])
-            if b[k] > 4.5 * prev and b[k] > 0:
+            # "up to logarithms": a(M) M^2 = A + B log M^2 + C log^2 M^2 with terms of both signs (loops of different
+            # fermions) can pass through zero on the lower rungs and then grow faster than 4.5 per decade relative to
+            # the values next to the zero (thorough tier, seed 0: 1.30, -1.24, -5.97, -12.96 e-8 -> 4.8, still
+            # logarithmic up to 300 TeV); where the sign has changed the factor is 8 (a remainder that does not
+            # decouple grows by 10 per rung, twice)
+            signs = {x > 0 for x, fl in zip(vals[:k + 1], floors[:k + 1]) if abs(x) > fl}
+            factor = 4.5 if len(signs) <= 1 else 8.0
+            if b[k] > factor * prev and b[k] > 0:
                 return k, b
         return None, b
 
